@@ -217,6 +217,22 @@ fn reverse<T: Fl>(ctx: &Ctx, g: &Graph<T>, levels: u32, total: &mut Collector) {
                                 excess = e;
                             }
                         }
+                        // a result that lies inside the documented bounds exactly must also be *reported* as within
+                        // bounds, by the predicate and by the checked conversion (greys sit exactly on w + b = 1)
+                        if excess == 0.0 {
+                            if let Some((_, within)) = g.clamp[k] {
+                                tr += 1;
+                                if !within(m) {
+                                    c.violation(&format!("C15/reverse-is_within_bounds/{}/{}/{}->{}", g.name, T::NAME, g.nodes[r].name, g.nodes[k].name), 1.0, || mk("in-gamut RGB -> cylindrical space: inside the documented bounds but is_within_bounds() is false", json!({"result": m64, "is_within_bounds": false}), json!({"is_within_bounds": true})));
+                                }
+                            }
+                            if let Some(tryf) = g.tryc[r][k] {
+                                tr += 1;
+                                if let Ok(Err(_)) = pv::catch(|| tryf(v)) {
+                                    c.violation(&format!("C15/reverse-try_from_color/{}/{}/{}->{}", g.name, T::NAME, g.nodes[r].name, g.nodes[k].name), 1.0, || mk("in-gamut RGB -> cylindrical space: inside the documented bounds but try_from_color returns Err", json!({"result": m64, "try_from_color": "Err"}), json!({"try_from_color": "Ok"})));
+                                }
+                            }
+                        }
                         if excess <= eps {
                             c.ratio(&format!("reverse-bounds/{}", g.nodes[k].name.split('<').next().unwrap_or("")), excess / eps, || mk("bounds", json!({"result": m64, "excess": excess}), json!(null)));
                         } else {
@@ -388,7 +404,9 @@ fn replay(c: &mut Collector, rep: &Value) {
                 Ok(bk) => (0..3).any(|i| !((bk[i].to64() - v[i].to64()).abs() <= tol_roundtrip::<T>(&kk))),
                 Err(_) => true,
             };
-            if (sig.contains("reverse-bounds") && oob) || (sig.contains("reverse-roundtrip") && bad_rt) {
+            let not_within = g.clamp[ib].map(|(_, w)| !w(m)).unwrap_or(false);
+            let try_err = g.tryc[ia][ib].map(|t| matches!(pv::catch(|| t(v)), Ok(Err(_)))).unwrap_or(false);
+            if (sig.contains("reverse-bounds") && oob) || (sig.contains("reverse-roundtrip") && bad_rt) || (sig.contains("reverse-is_within_bounds") && not_within) || (sig.contains("reverse-try_from_color") && try_err) {
                 c.violation(sig, 1.0, || case.clone());
             }
         }
